@@ -98,7 +98,7 @@ BlumPrimes(u) == {p \in 3..P.KeyPrimeHi : IsPrime(p) /\ p % 4 = 3}
 KeyMods(u) == {pq \in BlumPrimes(0) \X BlumPrimes(0) : pq[1] # pq[2] /\ GCD(pq[1] * pq[2], (pq[1] - 1) * (pq[2] - 1)) = 1}
 KeyYsOf(p, q) == LET all == {y \in 2..(p * q - 1) : GCD(y, p * q) = 1 /\ ~Residue(y, p) /\ ~Residue(y, q)}
                      RECURSIVE First(_, _)
-                     First(S, n) == IF n = 0 \/ S = {} THEN {} ELSE LET x == Min(S) IN {x} \cup First(S \ {x}, n - 1)
+                     First(S0, n) == LET S == S0 IN IF n = 0 \/ S = {} THEN {} ELSE LET x == Min(S) IN {x} \cup First(S \ {x}, n - 1)
                  IN First(all, P.KeyYs) \cup {Max(all)}
 Names == {"", "Alice", "A B.C-d_e^f"}
 Emails == {"", "a@b.c"}
@@ -121,7 +121,7 @@ Groups(u) == {<<x[1] * x[2] + 1, x[1], x[2]>> :
 Elems(p, q, k) == {PowM(x, k, p) : x \in 2..(p - 2)} \ {1}
 \* the elements of order q in ascending order
 ElemSeq(p, q, k) == LET RECURSIVE Asc(_)
-                        Asc(S) == IF S = {} THEN <<>> ELSE LET x == Min(S) IN <<x>> \o Asc(S \ {x})
+                        Asc(S0) == LET S == S0 IN IF S = {} THEN <<>> ELSE LET x == Min(S) IN <<x>> \o Asc(S \ {x})
                     IN Asc(Elems(p, q, k))
 GroupObjs(ty) ==
   UNION {LET p == G[1]  q == G[2]  k == G[3]  E == ElemSeq(p, q, k)  g == E[1]  h == E[Len(E)]
@@ -156,7 +156,7 @@ Vec(big, off, n) == [j \in 1..n |-> FillS(big, off + j)]
 Mat(big, off, n, m) == [a \in 1..n |-> [b \in 1..m |-> FillS(big, off + (a - 1) * m + b)]]
 \* QUAL as the protocols leave it (ascending), every subset; one descending order in addition
 RECURSIVE AscOf(_)
-AscOf(S) == IF S = {} THEN <<>> ELSE LET x == Min(S) IN <<x>> \o AscOf(S \ {x})
+AscOf(S0) == LET S == S0 IN IF S = {} THEN <<>> ELSE LET x == Min(S) IN <<x>> \o AscOf(S \ {x})
 Quals(n) == {AscOf(S) : S \in SUBSET (0..(n - 1))} \cup {[j \in 1..n |-> n - j]}
 FewQuals(n) == {<<>>, AscOf(0..(n - 1)), [j \in 1..n |-> n - j]} \cup (IF n > 1 THEN {<<n - 1>>} ELSE {})
 
@@ -212,8 +212,8 @@ BigStateObjs(ty) ==
 (* whose reading is not a matter of taste are listed (no stray white space,  *)
 (* no leading zeros, no trailing garbage).                                   *)
 Lim(ty, big, arg, txt) == [k |-> "lim", ty |-> ty, big |-> big, arg |-> arg, txt |-> txt]
-CutLast(s) == SubSeq(s, 1, Len(s) - 1)
-CutLastLine(s) == LET Q == Delims(s, NL) IN SubSeq(s, 1, Q[Len(Q) - 1])        \* at least two lines
+CutLast(s0) == LET s == s0 IN SubSeq(s, 1, Len(s) - 1)
+CutLastLine(s0) == LET s == s0  Q == Delims(s, NL) IN SubSeq(s, 1, Q[Len(Q) - 1])        \* at least two lines
 ZeroStack == Stack("tstack", FALSE, <<>>)
 LimCases(u) ==
   \* cards and card secrets: k, w in {0, limit + 1}; last delimiter missing; wrong magic
